@@ -280,8 +280,9 @@ func makeIterator(value any) iterable {
 		return sliceWrapper(reflect.ValueOf(value))
 	case reflect.Map:
 		rv := reflect.ValueOf(value)
-		array := make([][]any, rv.Len())
-		for i, k := range values.SortedMapKeys(rv) {
+		keys := values.SortedMapKeys(rv)
+		array := make([][]any, len(keys))
+		for i, k := range keys {
 			v := rv.MapIndex(k)
 			array[i] = []any{k.Interface(), v.Interface()}
 		}
